@@ -227,6 +227,11 @@ func (e *Engine) freshOf(st *State, hint string, t types.Type) Val {
 }
 
 func (e *Engine) havocAllHeaps(st *State, hint string) {
+	// heaps are discovered lazily; a heap first touched after this point would silently keep its
+	// entry value, so remember how many were known and re-run if more turn up (see runOnce)
+	if e.havocAllMin < 0 || len(e.heapSorts) < e.havocAllMin {
+		e.havocAllMin = len(e.heapSorts)
+	}
 	for n, s := range e.heapSorts {
 		st.heaps[n] = e.tb.Fresh(hint+"_"+n, s)
 	}
@@ -479,7 +484,13 @@ func (e *Engine) applyContract(fr *Frame, st *State, ins ssa.Instruction, c *Con
 	}
 	pre := st.clone()
 	// havoc assigns
-	if !c.HasAssigns {
+	hasAssigns := c.HasAssigns
+	for _, a := range c.Assigns {
+		if a.Kind == "everything" {
+			hasAssigns = false
+		}
+	}
+	if !hasAssigns {
 		e.havocAllHeaps(st, "hv_"+name)
 		e.notes = append(e.notes, "callee "+name+" has no assigns clause: all heaps havocked at the call")
 	} else {
@@ -623,10 +634,22 @@ func (e *Engine) applyIfaceContract(fr *Frame, st *State, ins ssa.Instruction, c
 	}
 	pre := st.clone()
 	var targets []*havocTarget
+	everything := false
 	for _, a := range c.Assigns {
+		if a.Kind == "everything" {
+			everything = true
+			continue
+		}
 		targets = append(targets, e.assignTargets(fr, pre, a, func(cl *Clause) Val {
 			return e.evalWrapper(fr, pre, pre, e.wrapperFn(c, cl), all)
 		})...)
+	}
+	if everything {
+		targets = nil
+		e.havocAllHeaps(st, "c_"+sanitize(name))
+		nc := e.tb.Fresh("clk", SInt)
+		e.addFact(st, e.tb.IntCmp(">=", nc, st.clock))
+		st.clock = nc
 	}
 	byHeap := map[string]bool{}
 	for _, t := range targets {
